@@ -15,4 +15,34 @@ CLAIMED = {
         technique="TLA+ trace validation (RepoTrace.tla) of recorded prune runs + real-check oracle on every crash prefix",
         note=TRACE_NOTE,
     ),
+    "C11": dict(
+        category="model_checking",
+        text="Design: RepoProc.tla backup family (writers, reader, crash anywhere; broken twins snapshot-before-index, index-before-pack, reader-index-first refuted). "
+             "Conformance: real backups over generated trees (several packs, lowered index-full threshold so intermediate index files occur) are run to completion and under "
+             "injected faults (Save/Remove error before or after effect at op k, context cancel at op k, process death at op k, Load error at read j); every recorded backend "
+             "operation goes through RepoTrace.tla (all invariants + write-ordering rules in every state = every crash point); crash prefixes and post-fault states are judged by the "
+             "real check --read-data, by loading every blob of every snapshot present, and by a follow-up backup + prune that must succeed.",
+        design_ref="§4 C11",
+        technique="TLA+ trace validation (RepoTrace.tla) of real backup runs under enumerated faults + real-check oracle on crash prefixes",
+        note=TRACE_NOTE,
+    ),
+    "C23": dict(
+        category="model_checking",
+        text="Real `forget` invocations (policy and id mode, filters, group-by variants, dry-run, --unsafe-allow-remove-all) on generated repositories; the recorded backend "
+             "operations are validated by RepoTrace.tla (ForgetMatchesReport: snapshot files removed during the command = the JSON report / named ids; ReadOnlyRespected for dry-run), "
+             "and the harness compares deleted files with the report and with an independent grouping/filter implementation (no group emptied under a non-empty policy, empty policy removes nothing).",
+        design_ref="§4 C23",
+        technique="TLA+ trace validation (RepoTrace.tla: ForgetMatchesReport, ReadOnlyRespected) of real forget runs + independent grouping oracle",
+        note=TRACE_NOTE,
+    ),
+    "C26": dict(
+        category="model_checking",
+        text="Design: RepoProc.tla tag family (save new then remove old, crash anywhere; remove-first twin refuted by TagNeverLoses). Conformance: real tag / rewrite (exclude, metadata, "
+             "--forget on/off, no-match) / repair snapshots runs in multi-step histories (already rewritten snapshots), complete and with Save/Remove errors or process death at op k; "
+             "RepoTrace.tla checks R_SnapshotNotLost and R_OriginalKept on every recorded step; the harness re-reads every prefix storage with the real code and checks that every "
+             "lineage still has a snapshot and that Original/tree relations hold.",
+        design_ref="§4 C26",
+        technique="TLA+ trace validation (RepoTrace.tla: R_SnapshotNotLost, R_OriginalKept) of real tag/rewrite/repair runs at every crash prefix",
+        note=TRACE_NOTE,
+    ),
 }
